@@ -94,9 +94,9 @@ CHECKS = {
   "'all 2^128 Refs' is covered over 0, MAX and every single-bit value only; JSON cannot carry non-finite floats.",
   "5/C17"),
  "C18": ("sched", "model_checking",
-  "stateless DFS over all thread interleavings (iterated preemption bounding, unbounded for 2 threads) of the real SharedString code under a deterministic baton scheduler with cfg-hook yield points",
-  "Every schedule of 2 threads x programs of <=2 (quick) / <=3 (thorough) new/clone/drop operations over two colliding contents, with 0-1 pre-existing shared handle, unbounded preemptions; 3-thread configurations under a preemption bound. At every consistent cut: live handles with equal contents share one buffer; per handle: bytes, ==, Hash; no panic/deadlock; intern table empty once everything is dropped.",
-  "Granularity = intern-table critical sections + operation boundaries (the window between Arc::into_inner and the clean-up lock is a scheduling point); std Arc/Mutex internals trusted; no weak-memory modelling.",
+  "stateless DFS over thread interleavings (iterated preemption bounding; thorough: every interleaving of 2 threads) of the real SharedString code under a deterministic baton scheduler; scheduling points injected by cfg hooks at every intern-table lock acquisition, every reference-count operation on a buffer and every operation boundary",
+  "Every schedule with <=3 preemptions (thorough: all) of 2 threads x programs of <=2 new/clone/drop operations over two colliding contents with 0-1 pre-existing shared handle, 3 threads x 1 operation with <=2 preemptions (thorough: all), thorough also 2 x 3 and 3 x 2 under bounds. At every consistent cut: live handles with equal contents share one buffer; per handle: bytes, ==, Hash; no panic; no deadlock (a thread that finds the lock taken parks as blocked, all-blocked is reported); intern table empty once everything is dropped.",
+  "Granularity = lock acquisitions + Arc/Weak reference-count operations (upgrade, downgrade, into_inner, strong_count, clone) inside and outside the critical sections + operation boundaries; memory-ordering effects inside std Arc/Mutex are trusted (sequentially consistent interleavings only).",
   "5/C18"),
 }
 
